@@ -101,10 +101,15 @@ def gen_program(rnd):
             if k < 0.5:
                 lines.append("r%d = A[%s] + 0" % (nres, index(0)))
                 kinds.add("read")
-            elif k < 0.9:
+            elif k < 0.82:
                 lines.append("A[%s] = %s" % (index(0), elem()))
                 lines.append("r%d = 0" % nres)
                 kinds.add("write")
+            elif k < 0.9:
+                # the value written is the very object another cell holds (a[i] = a[0]): exactly the addressed cell changes
+                lines.append("A[%s] = A[%d]" % (index(0), rnd.randint(0, shape[0] - 1)))
+                lines.append("r%d = 0" % nres)
+                kinds.add("write-aliased-element")
             else:
                 lines.append("A[%d] = %s" % (rnd.randint(-shape[0], shape[0] - 1), elem()))
                 lines.append("r%d = 0" % nres)
